@@ -223,9 +223,8 @@ func (d *Descriptor) readAsSlice(out Outputter, data []byte) (n int, err error) 
 				return 0, fmt.Errorf("invalid varint for slice entry %d", i)
 			}
 			offset += n
-			if s == 0 {
-				continue
-			}
+			// Note a zero length element is still an element: an empty string,
+			// or a struct with nothing set
 			if s > uint64(len(data)-offset) {
 				return 0, fmt.Errorf("corrupt data reading slice entry %d", i)
 			}
